@@ -184,6 +184,15 @@ def _mk_spectrum(seed, shape, maskfrac=0.0, folded=False, pop_ids=None, scale=10
     return fs
 
 
+def _grid_cumsum(pts):
+    """a user-built grid: cumulative sum of spacings (end point differs from 1 in the last bits, as such grids do)"""
+    import dadi
+    xx = dadi.Numerics.default_grid(pts)
+    d = np.diff(xx)
+    g = np.concatenate(([0.0], np.cumsum(d * (1 - 3e-16))))
+    return g
+
+
 def _mask_entry(fs, i):
     """user code masking one entry of its own spectrum in place"""
     idx = np.unravel_index(i % fs.size, fs.shape)
@@ -226,6 +235,7 @@ def _load():
     # ---- grids
     reg('grid', Numerics.default_grid, group='grid')
     reg('grid_exp', lambda pts, crwd=8.0: Numerics.exponential_grid(pts, crwd), group='grid')
+    reg('grid_cumsum', _grid_cumsum, group='grid')
     # ---- synthetic inputs
     reg('mk_spectrum', _mk_spectrum, group='make')
     reg('mk_array', lambda seed, shape, scale=1.0: np.random.RandomState(seed).random_sample(tuple(shape)) * scale, group='make')
